@@ -56,7 +56,14 @@ impl<'r> Data<'r> {
             if src.is_empty() {
                 None
             } else {
-                Some(decode_field(&mut src))
+                let result = decode_field(&mut src);
+
+                // Nothing can be decoded after a malformed field: end the iteration.
+                if result.is_err() {
+                    src = &[];
+                }
+
+                Some(result)
             }
         })
     }
